@@ -1,7 +1,7 @@
 SPECIFICATION Spec
 CONSTANTS
-  MaxLen = 6
-  Vocab = "full"
+  MaxLen = 7
+  Vocab = "blocks"
   CheckAlpha = FALSE
 INVARIANTS BoundaryHygiene Report
 CHECK_DEADLOCK FALSE
